@@ -694,3 +694,118 @@ func GenCond(t *rapid.T, p Profile, depth int) *E {
 	g := &genv{t: t, p: p, vars: baseVars(), budget: 8}
 	return g.cond(depth)
 }
+
+// ---- lookup paths over generated nested bindings (C08) ----
+
+// GenNested draws a nested value of maps and arrays (depth <= 3) with scalar leaves.
+func GenNested(t *rapid.T, depth int) *Spec {
+	k := rapid.IntRange(0, 9).Draw(t, "nk")
+	if depth == 0 || k < 4 {
+		switch k % 5 {
+		case 0:
+			return SInt(int64(rapid.IntRange(-3, 9).Draw(t, "ni")))
+		case 1:
+			return SStr(rapid.SampledFrom(strPool).Draw(t, "ns"))
+		case 2:
+			return SNil()
+		case 3:
+			return SBool(rapid.Bool().Draw(t, "nb"))
+		default:
+			return SFloat(float64(rapid.IntRange(-4, 12).Draw(t, "nf")) / 4)
+		}
+	}
+	if k < 7 {
+		a := SArr()
+		for i, n := 0, rapid.IntRange(0, 4).Draw(t, "alen"); i < n; i++ {
+			a.E = append(a.E, GenNested(t, depth-1))
+		}
+		return a
+	}
+	m := SMap()
+	keys := rapid.Permutation([]string{"a", "b", "c", "size", "first", "x-y"}).Draw(t, "mkeys")
+	for _, key := range keys[:rapid.IntRange(0, 4).Draw(t, "mlen")] {
+		m.Keys = append(m.Keys, key)
+		m.E = append(m.E, GenNested(t, depth-1))
+	}
+	return m
+}
+
+// GenPath draws a lookup path starting at variable root: property (dot or
+// bracket spelling), index (valid, negative, out of range, non-integer) steps.
+// Steps follow the actual structure of v most of the time, so that deep values
+// are reached, and go astray sometimes, so that nil appears mid-path.
+func GenPath(t *rapid.T, root string, v *Spec, maxSteps int) *E {
+	e := Var(root)
+	cur := v
+	for i, n := 0, rapid.IntRange(1, maxSteps).Draw(t, "steps"); i < n; i++ {
+		astray := rapid.IntRange(0, 5).Draw(t, "astray") == 0
+		switch {
+		case cur != nil && cur.K == "arr" && !astray:
+			switch rapid.IntRange(0, 5).Draw(t, "astep") {
+			case 0:
+				e, cur = Prop(e, "size"), SInt(int64(len(cur.E)))
+			case 1:
+				e = Prop(e, "first")
+				if len(cur.E) > 0 {
+					cur = cur.E[0]
+				} else {
+					cur = nil
+				}
+			case 2:
+				e = Prop(e, "last")
+				if len(cur.E) > 0 {
+					cur = cur.E[len(cur.E)-1]
+				} else {
+					cur = nil
+				}
+			default:
+				ix := rapid.IntRange(-len(cur.E)-1, len(cur.E)).Draw(t, "ix")
+				e = Idx(e, LInt(int64(ix)))
+				j := ix
+				if j < 0 {
+					j += len(cur.E)
+				}
+				if j >= 0 && j < len(cur.E) {
+					cur = cur.E[j]
+				} else {
+					cur = nil
+				}
+			}
+		case cur != nil && cur.K == "map" && !astray && len(cur.Keys) > 0:
+			j := rapid.IntRange(0, len(cur.Keys)-1).Draw(t, "key")
+			key := cur.Keys[j]
+			switch rapid.IntRange(0, 2).Draw(t, "spell") {
+			case 0:
+				e = Prop(e, key)
+			case 1:
+				e = PropBr(e, key)
+			default:
+				e = Idx(e, LStr(key))
+			}
+			cur = cur.E[j]
+		default:
+			switch rapid.IntRange(0, 6).Draw(t, "odd") {
+			case 0:
+				e = Prop(e, rapid.SampledFrom([]string{"size", "first", "last", "nokey", "a"}).Draw(t, "oddp"))
+			case 1:
+				e = PropBr(e, rapid.SampledFrom([]string{"size", "first", "nokey", "a"}).Draw(t, "oddb"))
+			case 2:
+				e = Idx(e, LInt(int64(rapid.IntRange(-7, 7).Draw(t, "oddi"))))
+			case 3:
+				e = Idx(e, Lit(SFloat(1.5)))
+			case 4:
+				e = Idx(e, rapid.SampledFrom([]*E{LNil(), LBool(true), LStr("x"), Var("a"), Var("zz")}).Draw(t, "oddx"))
+			default:
+				e = Idx(e, Var("n"))
+			}
+			cur = nil
+		}
+	}
+	return e
+}
+
+// GenPrintable draws a printable expression over the standard bindings.
+func GenPrintable(t *rapid.T, p Profile, depth int) *E {
+	g := &genv{t: t, p: p, vars: baseVars(), budget: 8}
+	return g.printable(depth)
+}
